@@ -117,3 +117,359 @@ fn c18_truncate_zeroed() {
     }
     kani::cover!(!(p1[0] > h || p1[1] > h) && p1[2] > h && !(p1[3] > h), "flat block before a partially truncated block");
 }
+
+// ---------------------------------------------------------------------------------------------
+// C01 / C02  accessors (loop-free over all f64: complete proofs)
+// ---------------------------------------------------------------------------------------------
+
+/// C01.K.StrategiesInfo: player two's utility is the negation of player one's, per-player regret
+/// selects the player's entry, total regret is the larger of the two (IEEE max).
+#[kani::proof]
+fn c01_strategies_info_accessors() {
+    let util: f64 = kani::any();
+    let regrets: [f64; 2] = [kani::any(), kani::any()];
+    let info = StrategiesInfo { util, regrets };
+    assert!(info.player_utility(PlayerNum::One).to_bits() == util.to_bits(), "C01.K.StrategiesInfo: utility of player one");
+    assert!(info.player_utility(PlayerNum::Two).to_bits() == (-util).to_bits(), "C01.K.StrategiesInfo: utility of player two is the negation");
+    assert!(info.player_regret(PlayerNum::One).to_bits() == regrets[0].to_bits(), "C01.K.StrategiesInfo: regret of player one");
+    assert!(info.player_regret(PlayerNum::Two).to_bits() == regrets[1].to_bits(), "C01.K.StrategiesInfo: regret of player two");
+    assert!(info.regret().to_bits() == f64::max(regrets[0], regrets[1]).to_bits(), "C01.K.StrategiesInfo: total regret is the larger player regret");
+}
+
+/// C02.K.RegretBound.max: the total bound is the larger of the two per-player bounds.
+#[kani::proof]
+fn c02_regret_bound_accessors() {
+    let regrets: [f64; 2] = [kani::any(), kani::any()];
+    let b = RegretBound::new(regrets);
+    assert!(b.player_regret_bound(PlayerNum::One).to_bits() == regrets[0].to_bits(), "C02.K.RegretBound: bound of player one");
+    assert!(b.player_regret_bound(PlayerNum::Two).to_bits() == regrets[1].to_bits(), "C02.K.RegretBound: bound of player two");
+    assert!(b.regret_bound().to_bits() == f64::max(regrets[0], regrets[1]).to_bits(), "C02.K.RegretBound.max: total bound is the larger per-player bound");
+    if regrets[0] >= 0.0 && regrets[1] >= 0.0 {
+        assert!(b.regret_bound() >= 0.0, "C02.K.RegretBound.max: non-negative");
+    }
+}
+
+/// PlayerNum::ind / ind_mut two-case spec (cited by the Verus units as the contract of the
+/// external_body declarations in prelude/playernum.rs).
+#[kani::proof]
+fn playernum_ind() {
+    let mut arr: [u32; 2] = [kani::any(), kani::any()];
+    let orig = arr;
+    assert!(*PlayerNum::One.ind(&arr) == orig[0] && *PlayerNum::Two.ind(&arr) == orig[1], "playernum_ind: ind selects index 0 / 1");
+    let v: u32 = kani::any();
+    let who: bool = kani::any();
+    let num = if who { PlayerNum::One } else { PlayerNum::Two };
+    *num.ind_mut(&mut arr) = v;
+    if who {
+        assert!(arr[0] == v && arr[1] == orig[1], "playernum_ind: ind_mut writes index 0 only");
+    } else {
+        assert!(arr[1] == v && arr[0] == orig[0], "playernum_ind: ind_mut writes index 1 only");
+    }
+}
+
+// ---------------------------------------------------------------------------------------------
+// C19  Strategies::distance
+// ---------------------------------------------------------------------------------------------
+
+/// exact models of powf for the two exponents used (CBMC's powf is a nondeterministic
+/// over-approximation): x^1 == x, x^2 == x*x
+fn powf_model(x: f64, p: f64) -> f64 {
+    if p == 1.0 { x } else { x * x }
+}
+
+fn any_exponent() -> f64 {
+    let two: bool = kani::any();
+    if two { 2.0 } else { 1.0 }
+}
+
+/// bounded: player one has one infoset of two actions, player two has NO multi-action infoset.
+fn distance_setup() -> (Game<u8, u8>, [f64; 2], [f64; 2]) {
+    let g = game(&[2], &[], &[]);
+    let l = [any_prob(), any_prob()];
+    let r = [any_prob(), any_prob()];
+    (g, l, r)
+}
+
+/// C19.K.distance.well_defined: never NaN, never negative, zero for coinciding profiles,
+/// symmetric -- also for the player without multi-action infosets.
+#[kani::proof]
+#[kani::unwind(5)]
+#[kani::stub(f64::powf, powf_model)]
+fn c19_distance_well_defined() {
+    let (g, l, r) = distance_setup();
+    let p = any_exponent();
+    let a = Strategies { game: &g, probs: [Box::new(l), Box::new([])] };
+    let b = Strategies { game: &g, probs: [Box::new(r), Box::new([])] };
+    let d = a.distance(&b, p);
+    let e = b.distance(&a, p);
+    assert!(!d[0].is_nan() && !d[1].is_nan(), "C19.K.distance.not_nan: distance is a number for both players");
+    assert!(d[0] >= 0.0 && d[1] >= 0.0, "C19.K.distance.nonneg: distance is non-negative");
+    assert!(d[1] == 0.0, "C19.K.distance.empty_player: a player without multi-action infosets has distance 0");
+    assert!(d[0].to_bits() == e[0].to_bits() && d[1].to_bits() == e[1].to_bits(), "C19.K.distance.symmetric: symmetric in its arguments");
+    if l[0] == r[0] && l[1] == r[1] {
+        assert!(d[0] == 0.0, "C19.K.distance.zero_on_equal: coinciding profiles have distance 0");
+    }
+    if p == 1.0 && (l[0] != r[0] || l[1] != r[1]) {
+        assert!(d[0] > 0.0, "C19.K.distance.positive_when_different: differing profiles have positive distance");
+    }
+    kani::cover!(p == 2.0 && d[0] > 0.0, "p = 2 with a positive distance reachable");
+}
+
+/// C19.K.distance.range (KNOWN FINDING witness): disjoint supports at p = 1 give 2.0 > 1.
+#[kani::proof]
+#[kani::unwind(5)]
+#[kani::stub(f64::powf, powf_model)]
+fn c19_distance_range_upper() {
+    let (g, l, r) = distance_setup();
+    let p = any_exponent();
+    let a = Strategies { game: &g, probs: [Box::new(l), Box::new([])] };
+    let b = Strategies { game: &g, probs: [Box::new(r), Box::new([])] };
+    let d = a.distance(&b, p);
+    assert!(d[0] <= 1.0, "C19.K.distance.range_upper: distance is at most 1");
+}
+
+/// residual of the known finding: outside the documented failing class (profiles whose per-infoset
+/// L^p mass exceeds one) every entry of the result still obeys the bound, and the result is the
+/// AVERAGE over infosets (here: one infoset, so exactly the per-infoset sum).
+#[kani::proof]
+#[kani::unwind(5)]
+#[kani::stub(f64::powf, powf_model)]
+fn c19_distance_range_residual() {
+    let (g, l, r) = distance_setup();
+    let p = any_exponent();
+    let a = Strategies { game: &g, probs: [Box::new(l), Box::new([])] };
+    let b = Strategies { game: &g, probs: [Box::new(r), Box::new([])] };
+    let d = a.distance(&b, p);
+    let mut mass = 0.0;
+    mass += powf_model((l[0] - r[0]).abs(), p);
+    mass += powf_model((l[1] - r[1]).abs(), p);
+    // not in the known failing class  ==>  bound holds
+    if mass <= 1.0 {
+        assert!(d[0] <= 1.0, "C19.K.distance.range_residual: at most 1 whenever the per-infoset mass is at most 1");
+    }
+    assert!(d[0] <= 2.0, "C19.K.distance.range_residual: never above the per-infoset maximum 2");
+    kani::cover!(mass <= 1.0 && d[0] > 0.5, "non-trivial residual case reachable");
+}
+
+/// C19.K.distance.panics: profiles of different games panic.
+#[kani::proof]
+#[kani::unwind(5)]
+#[kani::should_panic]
+#[kani::stub(f64::powf, powf_model)]
+#[kani::stub(std::fmt::format, lib_fmt_stub)]
+fn c19_distance_panics_other_game() {
+    let (g, l, r) = distance_setup();
+    let g2 = game(&[2], &[], &[]);
+    let a = Strategies { game: &g, probs: [Box::new(l), Box::new([])] };
+    let b = Strategies { game: &g2, probs: [Box::new(r), Box::new([])] };
+    let _ = a.distance(&b, 1.0);
+}
+
+/// C19.K.distance.panics: a non-positive (or NaN) exponent panics.
+#[kani::proof]
+#[kani::unwind(5)]
+#[kani::should_panic]
+#[kani::stub(f64::powf, powf_model)]
+#[kani::stub(std::fmt::format, lib_fmt_stub)]
+fn c19_distance_panics_nonpositive_p() {
+    let (g, l, r) = distance_setup();
+    let a = Strategies { game: &g, probs: [Box::new(l), Box::new([])] };
+    let b = Strategies { game: &g, probs: [Box::new(r), Box::new([])] };
+    let p: f64 = kani::any();
+    kani::assume(!(p > 0.0));
+    let _ = a.distance(&b, p);
+}
+
+fn lib_fmt_stub(_: std::fmt::Arguments<'_>) -> String {
+    String::new()
+}
+
+// ---------------------------------------------------------------------------------------------
+// C13  named view (bounded)
+// ---------------------------------------------------------------------------------------------
+
+/// C13.K.named.len_prefix + content: player one has infosets of 2 and 3 actions plus one
+/// single-action infoset; entries are any probabilities (zeros allowed).  At EVERY prefix of the
+/// iteration the advertised length equals the number of items subsequently yielded -- for the infoset
+/// iterator and for each action iterator -- and the items are exactly the positive-probability
+/// actions with their stored probabilities; the single infoset comes with probability one.
+#[kani::proof]
+#[kani::unwind(8)]
+fn c13_named_len_prefix_and_content() {
+    let g = game(&[2, 3], &[], &[(9, 4)]);
+    let p1 = [any_prob(), any_prob(), any_prob(), any_prob(), any_prob()];
+    let s = Strategies { game: &g, probs: [Box::new(p1), Box::new([])] };
+    let [mut one, mut two] = s.as_named();
+    assert!(two.len() == 0 && two.next().is_none(), "C13.K.named: player two has nothing");
+    let sizes = [2usize, 3, 1];
+    let offs = [0usize, 2, 5];
+    let mut k = 0;
+    while k < 3 {
+        assert!(one.len() == 3 - k, "C13.K.named.len_prefix: infoset iterator length at every prefix");
+        let (info, mut acts) = one.next().unwrap();
+        if k < 2 {
+            assert!(*info == k as u8, "C13.K.named.content: infosets in order");
+            // expected remaining positive entries
+            let mut a = 0;
+            while a < sizes[k] {
+                let mut remaining = 0;
+                let mut b = a;
+                while b < sizes[k] { if p1[offs[k] + b] > 0.0 { remaining += 1; } b += 1; }
+                assert!(acts.len() == remaining, "C13.K.named.len_prefix: action iterator length at every prefix");
+                if p1[offs[k] + a] > 0.0 {
+                    let (act, pr) = acts.next().unwrap();
+                    assert!(*act == a as u8 && pr.to_bits() == p1[offs[k] + a].to_bits(), "C13.K.named.content: positive actions with their stored probability");
+                }
+                a += 1;
+            }
+            assert!(acts.len() == 0 && acts.next().is_none(), "C13.K.named.len_prefix: exhausted action iterator");
+        } else {
+            assert!(*info == 9, "C13.K.named.content: single-action infoset listed");
+            assert!(acts.len() == 1, "C13.K.named.len_prefix: single action iterator length before");
+            let (act, pr) = acts.next().unwrap();
+            assert!(*act == 4 && pr == 1.0, "C13.K.named.content: single action with probability one");
+            assert!(acts.len() == 0 && acts.next().is_none(), "C13.K.named.len_prefix: single action iterator length after");
+        }
+        k += 1;
+    }
+    assert!(one.len() == 0 && one.next().is_none(), "C13.K.named.len_prefix: exhausted infoset iterator");
+}
+
+// ---------------------------------------------------------------------------------------------
+// C14  strat_into_box_slow (scan-based import), one player
+// ---------------------------------------------------------------------------------------------
+
+type Entry = (u8, [(u8, f64); 2]);
+
+fn any_name() -> u8 {
+    let x: u8 = kani::any();
+    kani::assume(x == 0 || x == 1 || x == 3 || x == 5 || x == 7 || x == 9);
+    x
+}
+
+fn legal_weight(w: f64) -> bool { w >= 0.0 && w.is_finite() }
+
+/// C14.K.import_slow (bounded: one multi-action infoset `0` with actions {0,1}, one single-action
+/// infoset `7` with action 3; input = two entries of two (action, weight) pairs each, names from a
+/// six-value alphabet, weights ANY f64): succeeds exactly when all rules hold; an error carries the
+/// kind of a violated rule; zero-weight / unspecified actions end exactly 0; lengths preserved.
+#[kani::proof]
+#[kani::unwind(6)]
+fn c14_import_slow_accepts_iff() {
+    let infos = infos(&[2]);
+    let singles: [(u8, u8); 1] = [(7, 3)];
+    let e: [Entry; 2] = [
+        (any_name(), [(any_name(), kani::any()), (any_name(), kani::any())]),
+        (any_name(), [(any_name(), kani::any()), (any_name(), kani::any())]),
+    ];
+    // ---- reference model written from the property statement ----
+    let mut bad_infoset = false;
+    let mut bad_action = false;
+    let mut bad_prob = false;
+    let mut single_seen = false;
+    let mut w = [0.0f64; 2];
+    let mut i = 0;
+    while i < 2 {
+        let (info, acts) = e[i];
+        if info != 0 && info != 7 { bad_infoset = true; }
+        let mut j = 0;
+        while j < 2 {
+            let (a, x) = acts[j];
+            if info == 0 || info == 7 {
+                if !legal_weight(x) { bad_prob = true; }
+                if info == 0 && a != 0 && a != 1 { bad_action = true; }
+                if info == 7 && a != 3 { bad_action = true; }
+                if info == 0 && (a == 0 || a == 1) && legal_weight(x) { w[a as usize] = x; }
+                if info == 7 && a == 3 && legal_weight(x) { single_seen = true; }
+            }
+            j += 1;
+        }
+        i += 1;
+    }
+    let total_zero = w[0] + w[1] == 0.0;
+    let uninit = !single_seen || total_zero;
+    let all_ok = !bad_infoset && !bad_action && !bad_prob && !uninit;
+    // ---- the real function ----
+    let res = Game::<u8, u8>::strat_into_box_slow(e, &infos, &singles);
+    match res {
+        Ok(dense) => {
+            assert!(all_ok, "C14.K.import_slow.accepts_iff: accepted only if every rule holds");
+            assert!(dense.len() == 2, "C14.K.import_slow.values: one slot per action");
+            assert!(w[0] != 0.0 || dense[0] == 0.0, "C14.K.import_slow.values: zero / unspecified / overridden-by-zero action ends 0");
+            assert!(w[1] != 0.0 || dense[1] == 0.0, "C14.K.import_slow.values: zero / unspecified / overridden-by-zero action ends 0");
+            assert!(dense[0] >= 0.0 && dense[1] >= 0.0 && !dense[0].is_nan() && !dense[1].is_nan(), "C14.K.import_slow.values: non-negative numbers");
+        }
+        Err(kind) => {
+            assert!(!all_ok, "C14.K.import_slow.accepts_iff: rejected only if some rule is violated");
+            match kind {
+                StratError::InvalidInfoset => assert!(bad_infoset, "C14.K.import_slow.error_kind: InvalidInfoset only for an unknown infoset"),
+                StratError::InvalidAction => assert!(bad_action, "C14.K.import_slow.error_kind: InvalidAction only for an illegal action"),
+                StratError::InvalidProbability => assert!(bad_prob, "C14.K.import_slow.error_kind: InvalidProbability only for a negative / non-finite weight"),
+                StratError::UninitializedInfoset => assert!(uninit, "C14.K.import_slow.error_kind: UninitializedInfoset only for an uncovered infoset"),
+            }
+        }
+    }
+    kani::cover!(all_ok, "an accepted input is reachable");
+    kani::cover!(bad_action && !bad_infoset && !bad_prob, "an illegal action alone is reachable");
+}
+
+// ---------------------------------------------------------------------------------------------
+// C01  get_info on one concrete perfect-recall tree (bounded stand-in for the bottom-up loop of
+// optimal_deviations, which is not under a Verus contract)
+// ---------------------------------------------------------------------------------------------
+
+fn pinfo(id: u8, n: usize, prev: Option<usize>) -> PlayerInfosetData<u8, u8> {
+    let mut acts = Vec::new();
+    let mut a = 0;
+    while a < n { acts.push(a as u8); a += 1; }
+    PlayerInfosetData { infoset: id, actions: acts.into_boxed_slice(), prev_infoset: prev }
+}
+
+/// P1 at x: safe -> 0 | risk -> P2 at z: L -> 3 | R -> P1 at y: c -> 5 | d -> 2.   (y follows x)
+fn recall_game() -> Game<u8, u8> {
+    let y = Node::Player(Player { num: PlayerNum::One, infoset: 1, actions: Box::new([Node::Terminal(5.0), Node::Terminal(2.0)]) });
+    let z = Node::Player(Player { num: PlayerNum::Two, infoset: 0, actions: Box::new([Node::Terminal(3.0), y]) });
+    let x = Node::Player(Player { num: PlayerNum::One, infoset: 0, actions: Box::new([Node::Terminal(0.0), z]) });
+    Game {
+        chance_infosets: Box::new([]),
+        player_infosets: [Box::new([pinfo(0, 2, None), pinfo(1, 2, Some(0))]), Box::new([pinfo(0, 2, None)])],
+        single_infosets: [Box::new([]), Box::new([])],
+        root: x,
+    }
+}
+
+/// one of (1,0), (1/2,1/2), (0,1): all arithmetic on these is exact
+fn any_dyadic_pair() -> (f64, f64) {
+    let k: u8 = kani::any();
+    kani::assume(k < 3);
+    if k == 0 { (1.0, 0.0) } else if k == 1 { (0.5, 0.5) } else { (0.0, 1.0) }
+}
+
+fn fmax(a: f64, b: f64) -> f64 { if a > b { a } else { b } }
+
+/// C01.K.get_info.recall_tree (bounded: this tree; every profile with probabilities in {0,1/2,1},
+/// including the pure profiles that make infoset y unreachable): utility and both regrets equal the
+/// brute-force values over pure deviations.
+#[kani::proof]
+#[kani::unwind(8)]
+fn c01_get_info_recall_tree() {
+    let g = recall_game();
+    let (x0, x1) = any_dyadic_pair();
+    let (y0, y1) = any_dyadic_pair();
+    let (z0, z1) = any_dyadic_pair();
+    let s = Strategies { game: &g, probs: [Box::new([x0, x1, y0, y1]), Box::new([z0, z1])] };
+    let info = s.get_info();
+    // reference, written from the definition
+    let vy = y0 * 5.0 + y1 * 2.0;
+    let vz = z0 * 3.0 + z1 * vy;
+    let util = x0 * 0.0 + x1 * vz;
+    // player one deviations: best of safe, risk with the better of c / d
+    let br_y = 5.0;
+    let br_one = fmax(0.0, z0 * 3.0 + z1 * br_y);
+    // player two deviations (minimises player one's payoff): L or R after risk
+    let br_two = -(x1 * if 3.0 < vy { 3.0 } else { vy });
+    assert!(info.player_utility(PlayerNum::One) == util, "C01.K.get_info.recall_tree: utility is the expected payoff");
+    assert!(info.player_regret(PlayerNum::One) == fmax(br_one - util, 0.0), "C01.K.get_info.recall_tree: player one's regret is the best unilateral gain");
+    assert!(info.player_regret(PlayerNum::Two) == fmax(br_two + util, 0.0), "C01.K.get_info.recall_tree: player two's regret is the best unilateral gain");
+    kani::cover!(z1 == 0.0 && x1 == 0.0, "profile that makes the later infoset unreachable");
+}
